@@ -47,14 +47,18 @@ Fixpoint dval_eqb (a b : dval) {struct a} : bool :=
          | (k, v) :: t => match alist_get m k with Some w => dval_eqb v w | None => false end && all t
          end) l
   | DList l, DList m =>
-      (fix all2 (l m : list dval) : bool :=
-         match l, m with
-         | [], [] => true
-         | x :: l', y :: m' => dval_eqb x y && all2 l' m'
-         | _, _ => false
-         end) l m
+      (* order-free (a serialized Set has the iteration order of a Python set; the order of an
+         Array is not a matter of this property): same length, every element has an equal one *)
+      Nat.eqb (length l) (length m) &&
+      (fix all (l : list dval) : bool :=
+         match l with
+         | [] => true
+         | x :: l' => existsb (fun y => dval_eqb x y) m && all l'
+         end) l
   | _, _ => false
   end.
+
+Definition dval_eq2 (a b : dval) : bool := dval_eqb a b && dval_eqb b a.
 
 Fixpoint ival_eqb (a b : ival) {struct a} : bool :=
   match a, b with
@@ -115,7 +119,7 @@ Definition mism_des_agg (flag : bool) (c : case) : bool :=
 
 Definition mism_doc (flag : bool) (c : case) : bool :=
   let m := serialize (code_class c) (c_override c) flag (c_x c) in
-  negb (is_unmodelled m) && negb (res_eqb dval_eqb m (o_doc (sel flag c))).
+  negb (is_unmodelled m) && negb (res_eqb dval_eq2 m (o_doc (sel flag c))).
 
 (* deserialization of the OBSERVED document *)
 Definition model_back (flag : bool) (c : case) : res (list (pystr * ival)) :=
@@ -185,12 +189,19 @@ Fixpoint keys_ok (c : classdef) (L : list mapper) (v : ival) (d : dval) {struct 
   match v, d with
   | IScal z, DScal z' => Z.eqb z z'
   | IList l, DList m =>
-      (fix all2 (l : list ival) (m : list dval) : bool :=
-         match l, m with
-         | [], [] => true
-         | x :: l', y :: m' => keys_ok c L x y && all2 l' m'
-         | _, _ => false
-         end) l m
+      (* order-free, see dval_eqb: one document per element, and every element is the image of
+         some document / every document the image of some element *)
+      Nat.eqb (length l) (length m) &&
+      (fix all (l : list ival) : bool :=
+         match l with
+         | [] => true
+         | x :: l' => existsb (fun y => keys_ok c L x y) m && all l'
+         end) l &&
+      forallb (fun y => (fix any (l : list ival) : bool :=
+                           match l with
+                           | [] => false
+                           | x :: l' => keys_ok c L x y || any l'
+                           end) l) m
   | IStruct x, DDict dd =>
       (* every populated, non-dropped field has its key, with a matching value unless a later
          field took the same key *)
